@@ -8,8 +8,13 @@
   (`if a2.is_attribute and a1._value[0] is other: a2._value = (self, a1._value[1])`) and its final memo registration;
 * what `TaxonNamespace.populate_memo_for_taxon_namespace_scoped_copy` seeds (the namespace and every taxon, to themselves).
 
-Anything outside the supported shapes raises Unsupported (never a guess).  Tolerated rewrites: `k == "x": continue` vs
-`k != "x": <body>`, `or`-chains vs `k in (..)`, operands of `==`/`and`/`or` commuted, the depth tests in any order."""
+Anything outside the supported shapes raises Unsupported (never a guess, never a default): every definition emitted is the
+reading of statements that were ALL recognised; a `false` / an absent name is emitted only when the whole function was understood
+and positively lacks the effect.  Tolerated rewrites: `k == "x": continue` vs `k != "x": <body>`, `or`-chains vs `k in (..)`,
+operands of `==`/`and`/`or` commuted, the depth tests in any order, single-assignment local aliases of pure expressions
+(`attrs = self.__dict__`, `key = id(self)`, `cls = self.__class__`) and straight-line temporaries, early returns vs wrapping ifs,
+nested ifs vs `and`, `memo.update(<generator | list/dict comprehension | dict literal>)` vs item assignments in a loop, and helper
+functions / methods called as a statement (inlined one level)."""
 import ast
 import os
 
@@ -21,6 +26,139 @@ NAME = "C12Copy"
 def _src(repo, rel):
     with open(os.path.join(repo, rel)) as f:
         return ast.parse(f.read())
+
+
+import copy as _copy
+
+
+def _pure(e):
+    """expressions an alias may stand for: names, attribute chains, subscripts by names/constants, id(<pure>)"""
+    if isinstance(e, (ast.Name, ast.Constant)):
+        return True
+    if isinstance(e, ast.Attribute):
+        return _pure(e.value)
+    if isinstance(e, ast.Subscript):
+        return _pure(e.value) and _pure(e.slice)
+    if isinstance(e, ast.Call) and isinstance(e.func, ast.Name) and e.func.id == "id" and len(e.args) == 1 and not e.keywords:
+        return _pure(e.args[0])
+    return False
+
+
+class _Subst(ast.NodeTransformer):
+    def __init__(self, mapping):
+        self.mapping = mapping
+
+    def visit_Name(self, node):
+        if isinstance(node.ctx, ast.Load) and node.id in self.mapping:
+            return _copy.deepcopy(self.mapping[node.id])
+        return node
+
+
+def _subst(node, mapping):
+    if not mapping:
+        return node
+    return ast.fix_missing_locations(_Subst(mapping).visit(_copy.deepcopy(node)))
+
+
+def _stores(fn, name):
+    n = sum(1 for a in fn.args.args if a.arg == name)
+    for x in ast.walk(fn):
+        if isinstance(x, ast.Name) and x.id == name and isinstance(x.ctx, (ast.Store, ast.Del)):
+            n += 1
+    return n
+
+
+def _dealias(fn):
+    """a copy of fn in which every top-level single-assignment local alias of a pure expression is substituted"""
+    fn = _copy.deepcopy(fn)
+    mapping = {}
+    body = []
+    for s in fn.body:
+        s = _subst(s, mapping)
+        if isinstance(s, ast.Assign) and len(s.targets) == 1 and isinstance(s.targets[0], ast.Name) and _pure(s.value) \
+                and _stores(fn, s.targets[0].id) == 1:
+            mapping[s.targets[0].id] = s.value
+            continue
+        body.append(s)
+    fn.body = body
+    return fn
+
+
+def _is_docstring(s):
+    return isinstance(s, ast.Expr) and isinstance(s.value, ast.Constant)
+
+
+def _inline_calls(fn, module, cls=None):
+    """statements `helper(args)` / `self.helper(args)` / `<module alias>.helper(args)` (value unused, or `return helper(..)` as the last
+    statement) whose target is a module-level function / a method of the same class with a straight-line-returning body are replaced
+    by the helper's body with the parameters substituted (one level)"""
+    funcs = {n.name: n for n in module.body if isinstance(n, ast.FunctionDef)}
+    meths = {n.name: n for n in (cls.body if cls is not None else []) if isinstance(n, ast.FunctionDef)}
+
+    def expand(stmts):
+        out = []
+        for s in stmts:
+            call = None
+            if isinstance(s, ast.Expr) and isinstance(s.value, ast.Call):
+                call = s.value
+            elif isinstance(s, ast.Return) and isinstance(s.value, ast.Call):
+                call = s.value
+            target = None
+            selfarg = None
+            if call is not None:
+                f = call.func
+                if isinstance(f, ast.Name) and f.id in funcs:
+                    target = funcs[f.id]
+                elif isinstance(f, ast.Attribute) and isinstance(f.value, ast.Name) and f.value.id == "self" and f.attr in meths \
+                        and f.attr != fn.name:
+                    target, selfarg = meths[f.attr], f.value
+            if target is None:
+                if isinstance(s, ast.If):
+                    s = _copy.deepcopy(s)
+                    s.body, s.orelse = expand(s.body), expand(s.orelse)
+                out.append(s)
+                continue
+            params = [a.arg for a in target.args.args]
+            if target.args.vararg or target.args.kwarg or target.args.kwonlyargs:
+                raise Unsupported("cannot inline %s: unsupported signature" % target.name)
+            args = ([selfarg] if selfarg is not None else []) + list(call.args)
+            mapping = dict(zip(params, args))
+            for kw in call.keywords:
+                if kw.arg is None or kw.arg not in params:
+                    raise Unsupported("cannot inline %s: unsupported keyword" % target.name)
+                mapping[kw.arg] = kw.value
+            defaults = dict(zip(params[len(params) - len(target.args.defaults):], target.args.defaults))
+            for pn in params:
+                if pn not in mapping:
+                    if pn not in defaults:
+                        raise Unsupported("cannot inline %s: missing argument %s" % (target.name, pn))
+                    mapping[pn] = defaults[pn]
+            if not all(_pure(v) for v in mapping.values()):
+                raise Unsupported("cannot inline %s: impure argument" % target.name)
+            for pn in params:
+                if _stores(target, pn) != 1:
+                    raise Unsupported("cannot inline %s: parameter %s is re-assigned" % (target.name, pn))
+            body = [b for b in _dealias(target).body if not _is_docstring(b)]
+            if body and isinstance(body[-1], ast.Return):
+                body = body[:-1]
+            for b in body:
+                for n in ast.walk(b):
+                    if isinstance(n, ast.Return):
+                        raise Unsupported("cannot inline %s: it returns early" % target.name)
+            out += [_subst(b, mapping) for b in body]
+        return out
+    fn = _copy.deepcopy(fn)
+    fn.body = expand(fn.body)
+    return fn
+
+
+def _flatten(test, op):
+    if isinstance(test, ast.BoolOp) and isinstance(test.op, op):
+        out = []
+        for v in test.values:
+            out += _flatten(v, op)
+        return out
+    return [test]
 
 
 def _names_tested(test, var):
@@ -89,6 +227,7 @@ def _is_deepcopy_of_attr(stmt, var):
 
 def _attr_loop(fn, what):
     """the `for k in self.__dict__:` loop of an attribute-wise __deepcopy__: returns (skipped names, index of the loop in fn.body)"""
+    fn = _dealias(fn)
     loops = [(i, s) for i, s in enumerate(fn.body) if isinstance(s, ast.For) and _is_self_dict(s.iter) and isinstance(s.target, ast.Name)]
     if len(loops) != 1:
         raise Unsupported("%s: expected exactly one `for k in self.__dict__` loop, found %d" % (what, len(loops)))
@@ -98,19 +237,32 @@ def _attr_loop(fn, what):
         raise Unsupported("%s: attribute loop has an else clause" % what)
     skipped = []
     copies = False
+    temps = {}
+
+    def in_clone_dict(t):
+        # `k in other.__dict__` (attributes a derived class set already): never true for a fresh copy
+        return isinstance(t, ast.Compare) and len(t.ops) == 1 and isinstance(t.ops[0], ast.In) and isinstance(t.left, ast.Name) \
+            and t.left.id == var and isinstance(t.comparators[0], ast.Attribute) and t.comparators[0].attr == "__dict__" \
+            and not _is_self_dict(t.comparators[0])
     for s in loop.body:
+        # straight-line temporaries: `v = copy.deepcopy(self.__dict__[k], memo)` / pure expressions
+        if isinstance(s, ast.Assign) and len(s.targets) == 1 and isinstance(s.targets[0], ast.Name):
+            val = _subst(s.value, temps)
+            is_dc = isinstance(val, ast.Call) and isinstance(val.func, ast.Attribute) and val.func.attr == "deepcopy" and val.args \
+                and isinstance(val.args[0], ast.Subscript) and _is_self_dict(val.args[0].value)
+            if not (is_dc or _pure(val)):
+                raise Unsupported("%s: unsupported temporary in the attribute loop: %s" % (what, ast.dump(s)[:120]))
+            temps[s.targets[0].id] = val
+            continue
+        s = _subst(s, temps)
         if isinstance(s, ast.If) and not s.orelse and len(s.body) == 1 and isinstance(s.body[0], ast.Continue):
-            names = _names_tested(s.test, var)
-            if names is not None:
-                skipped += names
-                continue
-            # `if k in other.__dict__: continue` (attributes a derived class set already): never true for a fresh copy
-            t = s.test
-            if isinstance(t, ast.Compare) and len(t.ops) == 1 and isinstance(t.ops[0], ast.In) and isinstance(t.left, ast.Name) \
-                    and t.left.id == var and isinstance(t.comparators[0], ast.Attribute) and t.comparators[0].attr == "__dict__" \
-                    and not _is_self_dict(t.comparators[0]):
-                continue
-            raise Unsupported("%s: unsupported skip test %s" % (what, ast.dump(s.test)[:120]))
+            for d in _flatten(s.test, ast.Or):
+                names = _names_tested(d, var)
+                if names is not None:
+                    skipped += names
+                elif not in_clone_dict(d):
+                    raise Unsupported("%s: unsupported skip test %s" % (what, ast.dump(d)[:120]))
+            continue
         if isinstance(s, ast.If) and not s.orelse:
             names = _names_excluded(s.test, var)
             if names is None or not any(_is_deepcopy_of_attr(b, var) for b in s.body):
@@ -134,6 +286,7 @@ def _attr_loop(fn, what):
 
 def _annotations_last(fn, idx, what):
     """after the attribute loop: `<copy>.deep_copy_annotations_from(self, memo...)` and a return"""
+    fn = _dealias(fn)
     rest = [s for s in fn.body[idx + 1:] if not (isinstance(s, ast.Expr) and isinstance(s.value, ast.Constant))]
     calls = [s for s in rest if isinstance(s, ast.Expr) and isinstance(s.value, ast.Call) and isinstance(s.value.func, ast.Attribute)
              and s.value.func.attr == "deep_copy_annotations_from"]
@@ -145,8 +298,11 @@ def _annotations_last(fn, idx, what):
                 raise Unsupported("%s: annotations are copied before the attributes" % what)
 
 
-def _namespace_first(fn, idx):
-    """attributes TaxonNamespace.__deepcopy__ builds before the loop: `o._taxa = []` ... append(copy.deepcopy(t, memo))"""
+def _namespace_first(fn, idx, skipped):
+    """attributes TaxonNamespace.__deepcopy__ builds before the loop: `o._taxa = []` ... append(copy.deepcopy(t, memo)).
+    Every skipped attribute other than `_annotations` is either recognised as built here, or not mentioned before the loop at all
+    (positively not built); mentioned but not recognised -> Unsupported"""
+    fn = _dealias(fn)
     first = []
     for s in fn.body[:idx]:
         if isinstance(s, ast.Assign) and len(s.targets) == 1 and isinstance(s.targets[0], ast.Attribute) \
@@ -163,6 +319,17 @@ def _namespace_first(fn, idx):
                         ok = True
         if not ok:
             raise Unsupported("TaxonNamespace.__deepcopy__: %s is created but its members are not deep-copied before the loop" % name)
+    for name in skipped:
+        if name == "_annotations" or name in first:
+            continue
+        for s in fn.body[:idx]:
+            for n in ast.walk(s):
+                if (isinstance(n, ast.Attribute) and n.attr == name) or (isinstance(n, ast.Constant) and n.value == name):
+                    raise Unsupported("TaxonNamespace.__deepcopy__: %s is skipped by the loop and handled before it in a way "
+                                      "that is not recognised" % name)
+    for name in first:
+        if name not in skipped:
+            raise Unsupported("TaxonNamespace.__deepcopy__: %s is built before the loop and copied again by it" % name)
     return first
 
 
@@ -215,9 +382,11 @@ def _clone_table(fn):
 
 def _retarget(fn):
     """deep_copy_annotations_from: inside `for a1 in other._annotations`: `a2 = copy.deepcopy(a1, memo..)`;
-    `if a2.is_attribute and a1._value[0] is other: a2._value = (self, a1._value[1])`; after the loop `memo[id(other._annotations)] = self._annotations`.
-    returns (which annotation's is_attribute is tested: 'copy'|'source', whose owner is compared: 'source', owner compared with: 'other',
-    new owner: 'self', attribute name taken from: 'source')"""
+    `if a2.is_attribute and a1._value[0] is other: a2._value = (self, a1._value[1])` (the two tests may be nested ifs, `_value` may go
+    through a temporary); after the loop `memo[id(other._annotations)] = self._annotations`.
+    returns (whose is_attribute is tested: 'copy'|'source', whose owner is compared with `other`: 'copy'|'source'); raises Unsupported
+    when any of the three parts is not found in a recognised shape"""
+    fn = _dealias(fn)
     args = [a.arg for a in fn.args.args]
     if len(args) < 2:
         raise Unsupported("deep_copy_annotations_from: unexpected signature")
@@ -239,18 +408,43 @@ def _retarget(fn):
         if isinstance(s, ast.Assign) and len(s.targets) == 1 and isinstance(s.targets[0], ast.Name) and isinstance(s.value, ast.Call) \
                 and isinstance(s.value.func, ast.Attribute) and s.value.func.attr == "deepcopy" and s.value.args \
                 and isinstance(s.value.args[0], ast.Name) and s.value.args[0].id == a1:
+            if a2 is not None:
+                raise Unsupported("deep_copy_annotations_from: the annotation is copied twice")
             a2 = s.targets[0].id
         elif isinstance(s, ast.If) and not s.orelse:
+            if cond is not None:
+                raise Unsupported("deep_copy_annotations_from: two conditionals in the loop")
             cond = s
-        elif isinstance(s, ast.Expr) and isinstance(s.value, ast.Call) and isinstance(s.value.func, ast.Attribute) and s.value.func.attr == "add":
+        elif isinstance(s, ast.Expr) and isinstance(s.value, ast.Call) and isinstance(s.value.func, ast.Attribute) and s.value.func.attr == "add" \
+                and len(s.value.args) == 1 and isinstance(s.value.args[0], ast.Name) and s.value.args[0].id == a2:
             added = True
+        elif isinstance(s, ast.Assign) and len(s.targets) == 1 and isinstance(s.targets[0], ast.Subscript) \
+                and isinstance(s.targets[0].value, ast.Name) and s.targets[0].value.id == "memo":
+            continue      # memo[id(a1)] = a2
+        elif _is_docstring(s):
+            continue
+        else:
+            raise Unsupported("deep_copy_annotations_from: unsupported statement in the loop: %s" % ast.dump(s)[:120])
     if a2 is None or cond is None or not added:
         raise Unsupported("deep_copy_annotations_from: loop body not of the shape copy / re-target / add")
-    t = cond.test
-    if not (isinstance(t, ast.BoolOp) and isinstance(t.op, ast.And) and len(t.values) == 2):
-        raise Unsupported("deep_copy_annotations_from: re-target test is not a conjunction of two")
+    # flatten `if A and B:` / `if A: [tmp = pure;] if B:` into the list of tests and the innermost body
+    tests = _flatten(cond.test, ast.And)
+    body = list(cond.body)
+    temps = {}
+    while True:
+        while body and isinstance(body[0], ast.Assign) and len(body[0].targets) == 1 and isinstance(body[0].targets[0], ast.Name) \
+                and _pure(_subst(body[0].value, temps)):
+            temps[body[0].targets[0].id] = _subst(body[0].value, temps)
+            body = body[1:]
+        if len(body) == 1 and isinstance(body[0], ast.If) and not body[0].orelse:
+            tests += _flatten(_subst(body[0].test, temps), ast.And)
+            body = list(body[0].body)
+            continue
+        break
+    if len(tests) != 2:
+        raise Unsupported("deep_copy_annotations_from: the re-target condition is not a conjunction of two tests")
     bound = owner = None
-    for v in t.values:
+    for v in tests:
         if isinstance(v, ast.Attribute) and v.attr == "is_attribute" and isinstance(v.value, ast.Name) and v.value.id in (a1, a2):
             bound = "copy" if v.value.id == a2 else "source"
         elif isinstance(v, ast.Compare) and len(v.ops) == 1 and isinstance(v.ops[0], ast.Is):
@@ -262,10 +456,10 @@ def _retarget(fn):
                     and isinstance(r, ast.Name) and r.id == other:
                 owner = "source" if l.value.value.id == a1 else "copy"
     if bound is None or owner is None:
-        raise Unsupported("deep_copy_annotations_from: unsupported re-target test %s" % ast.dump(t)[:160])
-    if len(cond.body) != 1 or not isinstance(cond.body[0], ast.Assign):
+        raise Unsupported("deep_copy_annotations_from: unsupported re-target test %s" % "; ".join(ast.dump(t)[:80] for t in tests))
+    if len(body) != 1 or not isinstance(body[0], ast.Assign):
         raise Unsupported("deep_copy_annotations_from: re-target body is not one assignment")
-    asg = cond.body[0]
+    asg = _subst(body[0], temps)
     tg = asg.targets[0]
     if not (isinstance(tg, ast.Attribute) and tg.attr == "_value" and isinstance(tg.value, ast.Name) and tg.value.id == a2):
         raise Unsupported("deep_copy_annotations_from: re-target does not assign the copy's _value")
@@ -274,34 +468,112 @@ def _retarget(fn):
         raise Unsupported("deep_copy_annotations_from: new _value is not (self, name)")
     n1 = v.elts[1]
     if not (isinstance(n1, ast.Subscript) and isinstance(n1.value, ast.Attribute) and n1.value.attr == "_value" and isinstance(n1.value.value, ast.Name)
-            and n1.value.value.id in (a1, a2) and isinstance(n1.slice, ast.Constant) and n1.slice.value == 1):
-        raise Unsupported("deep_copy_annotations_from: attribute name is not <annotation>._value[1]")
-    # final registration memo[id(other._annotations)] = self._annotations
+            and n1.value.value.id == a1 and isinstance(n1.slice, ast.Constant) and n1.slice.value == 1):
+        raise Unsupported("deep_copy_annotations_from: attribute name is not <source annotation>._value[1]")
+    # final registration memo[id(other._annotations)] = self._annotations: found positively, or Unsupported
     reg = False
     for n in ast.walk(fn):
         if isinstance(n, ast.Assign) and len(n.targets) == 1 and isinstance(n.targets[0], ast.Subscript) and isinstance(n.targets[0].value, ast.Name) \
                 and n.targets[0].value.id == "memo" and isinstance(n.value, ast.Attribute) and n.value.attr == "_annotations" \
                 and isinstance(n.value.value, ast.Name) and n.value.value.id == me:
-            reg = True
-    return bound, owner, reg
-
-
-def _populate(fn):
-    """populate_memo_for_taxon_namespace_scoped_copy: memo[id(self)] = self; for taxon in self._taxa: memo[id(taxon)] = taxon"""
-    seeds_self = seeds_taxa = False
-    for n in ast.walk(fn):
-        if isinstance(n, ast.Assign) and len(n.targets) == 1 and isinstance(n.targets[0], ast.Subscript) and isinstance(n.targets[0].value, ast.Name) \
-                and n.targets[0].value.id == "memo" and isinstance(n.value, ast.Name):
             key = n.targets[0].slice
             if isinstance(key, ast.Call) and isinstance(key.func, ast.Name) and key.func.id == "id" and len(key.args) == 1 \
-                    and isinstance(key.args[0], ast.Name) and key.args[0].id == n.value.id:
-                if n.value.id == "self":
-                    seeds_self = True
-                else:
-                    seeds_taxa = True
-            else:
-                raise Unsupported("populate_memo: an entry that does not map an object to itself")
-    return seeds_self, seeds_taxa
+                    and isinstance(key.args[0], ast.Attribute) and key.args[0].attr == "_annotations" \
+                    and isinstance(key.args[0].value, ast.Name) and key.args[0].value.id == other:
+                reg = True
+    if not reg:
+        raise Unsupported("deep_copy_annotations_from: the registration memo[id(other._annotations)] = self._annotations was not "
+                          "found in a recognised shape")
+    return bound, owner, True
+
+
+def _populate(fn, module, cls):
+    """populate_memo_for_taxon_namespace_scoped_copy: `memo[id(self)] = self` and every taxon to itself
+    (`for taxon in self._taxa: memo[id(taxon)] = taxon`, or `memo.update(...)` over a generator / list or dict comprehension / dict
+    literal), under `if memo is not None:` or after `if memo is None: return`.  EVERY statement must be recognised; the two results
+    are then a reading of the whole function (false = understood completely and the effect is absent)."""
+    fn = _dealias(_inline_calls(fn, module, cls))
+    args = [a.arg for a in fn.args.args]
+    if len(args) != 2:
+        raise Unsupported("populate_memo: unexpected signature")
+    me, memo = args
+    seen = {"self": False, "taxa": False}
+
+    def is_id_of(key, name):
+        return isinstance(key, ast.Call) and isinstance(key.func, ast.Name) and key.func.id == "id" and len(key.args) == 1 \
+            and not key.keywords and isinstance(key.args[0], ast.Name) and key.args[0].id == name
+
+    def is_members(it):
+        return (isinstance(it, ast.Attribute) and it.attr == "_taxa" and isinstance(it.value, ast.Name) and it.value.id == me) \
+            or (isinstance(it, ast.Name) and it.id == me)
+
+    def is_none_test(t, positive):
+        if not (isinstance(t, ast.Compare) and len(t.ops) == 1 and isinstance(t.left, ast.Name) and t.left.id == memo
+                and isinstance(t.comparators[0], ast.Constant) and t.comparators[0].value is None):
+            return False
+        return isinstance(t.ops[0], ast.Is if positive else ast.IsNot)
+
+    def is_return(s):
+        return isinstance(s, ast.Return) and (s.value is None or (isinstance(s.value, ast.Constant) and s.value.value is None)
+                                               or (isinstance(s.value, ast.Name) and s.value.id in (memo, me)))
+
+    def seed_pair(k, v, var):
+        return is_id_of(k, var) and isinstance(v, ast.Name) and v.id == var
+
+    def comp_over_members(gens, var_of):
+        if len(gens) != 1 or gens[0].ifs or gens[0].is_async or not isinstance(gens[0].target, ast.Name) or not is_members(gens[0].iter):
+            return None
+        return gens[0].target.id
+
+    def process(stmts):
+        for s in stmts:
+            if _is_docstring(s) or isinstance(s, ast.Pass) or is_return(s):
+                continue
+            if isinstance(s, ast.If) and is_none_test(s.test, True) and all(is_return(b) for b in s.body):
+                process(s.orelse)
+                continue
+            if isinstance(s, ast.If) and is_none_test(s.test, False) and all(is_return(b) or isinstance(b, ast.Pass) for b in s.orelse):
+                process(s.body)
+                continue
+            if isinstance(s, ast.Assign) and len(s.targets) == 1 and isinstance(s.targets[0], ast.Subscript) \
+                    and isinstance(s.targets[0].value, ast.Name) and s.targets[0].value.id == memo:
+                if seed_pair(s.targets[0].slice, s.value, me):
+                    seen["self"] = True
+                    continue
+                raise Unsupported("populate_memo: an entry that does not map the namespace to itself: %s" % ast.dump(s)[:120])
+            if isinstance(s, ast.For) and isinstance(s.target, ast.Name) and is_members(s.iter) and not s.orelse:
+                var = s.target.id
+                for b in s.body:
+                    if isinstance(b, ast.Pass) or _is_docstring(b):
+                        continue
+                    if isinstance(b, ast.Assign) and len(b.targets) == 1 and isinstance(b.targets[0], ast.Subscript) \
+                            and isinstance(b.targets[0].value, ast.Name) and b.targets[0].value.id == memo \
+                            and seed_pair(b.targets[0].slice, b.value, var):
+                        seen["taxa"] = True
+                        continue
+                    raise Unsupported("populate_memo: unsupported statement in the member loop: %s" % ast.dump(b)[:120])
+                continue
+            if isinstance(s, ast.Expr) and isinstance(s.value, ast.Call) and isinstance(s.value.func, ast.Attribute) \
+                    and s.value.func.attr == "update" and isinstance(s.value.func.value, ast.Name) and s.value.func.value.id == memo \
+                    and len(s.value.args) == 1 and not s.value.keywords:
+                a = s.value.args[0]
+                if isinstance(a, (ast.GeneratorExp, ast.ListComp)) and isinstance(a.elt, (ast.Tuple, ast.List)) and len(a.elt.elts) == 2:
+                    var = comp_over_members(a.generators, None)
+                    if var is not None and seed_pair(a.elt.elts[0], a.elt.elts[1], var):
+                        seen["taxa"] = True
+                        continue
+                if isinstance(a, ast.DictComp):
+                    var = comp_over_members(a.generators, None)
+                    if var is not None and seed_pair(a.key, a.value, var):
+                        seen["taxa"] = True
+                        continue
+                if isinstance(a, ast.Dict) and a.keys and all(k is not None and seed_pair(k, v, me) for k, v in zip(a.keys, a.values)):
+                    seen["self"] = True
+                    continue
+                raise Unsupported("populate_memo: unsupported memo.update argument: %s" % ast.dump(a)[:120])
+            raise Unsupported("populate_memo: unsupported statement: %s" % ast.dump(s)[:120])
+    process(fn.body)
+    return seen["self"], seen["taxa"]
 
 
 def _lst(names):
@@ -321,7 +593,7 @@ def generate(repo):
         out.append("def %s : List String := %s" % (lean, _lst(skipped)))
         if lean == "skipNamespace":
             out.append("/-- attributes %s builds (members deep-copied) before the loop -/" % qual)
-            out.append("def firstNamespace : List String := %s" % _lst(_namespace_first(fn, idx)))
+            out.append("def firstNamespace : List String := %s" % _lst(_namespace_first(fn, idx, skipped)))
     table = _clone_table(find_function(bm, "DataObject.clone"))
     out.append("/-- DataObject.clone(depth): which copy a depth selects; any other depth raises TypeError -/")
     out.append("def cloneTable : List (Nat × String) := [" + ", ".join('(%d, "%s")' % kv for kv in table) + "]")
@@ -331,7 +603,10 @@ def generate(repo):
     out.append("def retargetOwnerTestOn : String := %s" % lean_string(owner))
     out.append("/-- `memo[id(other._annotations)] = self._annotations` at the end -/")
     out.append("def registersAnnotationSet : Bool := %s" % ("true" if reg else "false"))
-    s1, s2 = _populate(find_function(tm, "TaxonNamespace.populate_memo_for_taxon_namespace_scoped_copy"))
+    nscls = [n for n in tm.body if isinstance(n, ast.ClassDef) and n.name == "TaxonNamespace"]
+    if len(nscls) != 1:
+        raise Unsupported("cannot find class TaxonNamespace")
+    s1, s2 = _populate(find_function(tm, "TaxonNamespace.populate_memo_for_taxon_namespace_scoped_copy"), tm, nscls[0])
     out.append("/-- populate_memo_for_taxon_namespace_scoped_copy seeds the namespace / every taxon to itself -/")
     out.append("def seedsNamespace : Bool := %s" % ("true" if s1 else "false"))
     out.append("def seedsTaxa : Bool := %s" % ("true" if s2 else "false"))
